@@ -40,10 +40,16 @@ import (
 )
 
 // The constants of the oracle. They were fixed from measurements of the worst
-// legitimate families on the unchanged tree (see the evidence, "ratios" and
-// "constants"): the largest linear ratios there are ≈ 50·n (deep size),
-// ≈ 90·n (decode) and ≈ 175·n (decode + re-encode), the largest quadratic
-// coefficients 0.56 (decode) and 1.7 (decode + re-encode) times depth·n.
+// legitimate families on the unchanged tree (printed again by every run in the
+// evidence under "ratios" and "constants"). At n = 65 507 those are, per input
+// octet: deep size 52 (thousands of empty 4RD options), decode 88 and decode +
+// re-encode 174 (DHCPv4 option 119 made of root names) — so K = 1024 leaves
+// 19x / 11x / 5.9x on the linear terms — and, per depth·n, decode 0.54 (IA
+// options nested 4093..8187 deep) up to 0.98 (the same with a long innermost
+// tail: every level copies nearly the whole input, which is exactly the
+// statement's "one copy per level") and decode + re-encode 1.62 up to 2.86
+// against Cq = 4. The name-decoding blow-up this check exists for is 34 000·n at
+// 1 kB and 2.2·10^6·n at 8 kB; the verdicts do not depend on the exact values.
 const (
 	Ks    = 1024     // deepSize     <= Ks*n + C
 	Kd    = 1024     // allocDec     <= Kd*n + CqDec*depth*n + C
@@ -681,7 +687,8 @@ func (st *runState) finish(sizes []int, nproc int) {
 	worst["deepSize_per_n"] = map[string]any{"value": wS, "family": wSn, "K": Ks, "headroom": hr(Ks, wS)}
 	worst["allocDec_linear_per_n"] = map[string]any{"value": wD, "family": wDn, "K": Kd, "headroom": hr(Kd, wD)}
 	worst["allocDecEnc_linear_per_n"] = map[string]any{"value": wA, "family": wAn, "K": Ka, "headroom": hr(Ka, wA)}
-	worst["allocDec_per_depth_n"] = map[string]any{"value": wQd, "family": wQdn, "C": CqDec, "headroom": hr(CqDec, wQd)}
+	worst["allocDec_per_depth_n"] = map[string]any{"value": wQd, "family": wQdn, "C": CqDec,
+		"headroom": "none by construction: the coefficient 1 is the statement's; allocator size-class rounding (up to 12.5 %, 25 % above 32 KiB) and per-level constants are absorbed by Kd*n, see max_allocDec_over_bound"}
 	worst["allocDecEnc_per_depth_n"] = map[string]any{"value": wQa, "family": wQan, "C": Cq, "headroom": hr(Cq, wQa)}
 	rat := map[string]any{}
 	for _, n := range names {
